@@ -273,6 +273,9 @@ class VariantInterval(AbstractFeatureInterval):
             new_loc = self._lift_over_chromosome_location_compound_interval(location)
         else:
             raise NotImplementedError("Location type {} not supported".format(str(type(location))))
+        # the location was deleted entirely
+        if new_loc is EmptyLocation():
+            return new_loc
         # this lifts the chromosome coordinates back onto chunk coordinates, if we are chunk-relative
         if self.has_sequence:
             return self.liftover_location_to_seq_chunk_parent(new_loc, self.parent_with_alternative_sequence)
@@ -543,6 +546,9 @@ class VariantIntervalCollection(AbstractFeatureIntervalCollection):
                 location = variant._lift_over_chromosome_location_compound_interval(location)
         else:
             raise ValueError("Invalid Location type passed")
+        # the location was deleted entirely
+        if location is EmptyLocation():
+            return location
         if self.has_sequence:
             return self.liftover_location_to_seq_chunk_parent(location, self.parent_with_alternative_sequence)
         else:
